@@ -55,6 +55,8 @@ func c10Alphabet(k int) []c10Sym {
 	// the connection sends a read whose application callback blocks, then resets its socket: the accessory cannot
 	// notice the reset before the handler returns, so a dead connection stays registered while later events happen
 	a = append(a, c10Sym{"hang-and-reset", k - 1, ""})
+	// eight changes in a row (the order in which hc walks its connections is random per change)
+	a = append(a, c10Sym{"app-burst", -1, "A"})
 	return a
 }
 
@@ -227,6 +229,14 @@ func (r *c10Run) step(sym c10Sym) bool {
 		r.val["A"], r.val["B"] = va, vb
 		notify("A", va, sym.Conn)
 		notify("B", vb, sym.Conn)
+	case "app-burst":
+		ch, _ := r.ch(sym.Ch)
+		for i := 0; i < 8; i++ {
+			v := r.other(sym.Ch)
+			r.val[sym.Ch] = v
+			notify(sym.Ch, v, -1)
+			ch.UpdateValue(v)
+		}
 	case "app", "app-same":
 		ch, _ := r.ch(sym.Ch)
 		v := r.val[sym.Ch]
